@@ -7,6 +7,7 @@ OneInst == {1}
 TwoInst == {1, 2}
 Ids3 == {1, 2, 3}
 NoFaults == {"ok"}
+AB == { c \in Cfgs : c.gain = "default" /\ c.rate = "100Hz" /\ ((c.f = "Madgwick" /\ c.arch = "MARG") \/ (c.f = "Mahony" /\ c.arch = "IMU")) }
 OneCfg == { CHOOSE c \in Cfgs : c.f = "Madgwick" /\ c.arch = "MARG" /\ c.gain = "default" /\ c.rate = "100Hz" }
 TwoCfgs == OneCfg \cup { CHOOSE c \in Cfgs : c.f = "Mahony" /\ c.arch = "IMU" /\ c.gain = "default" /\ c.rate = "100Hz" }
 =============================================================================
